@@ -33,8 +33,7 @@ Proof.
   - destruct (crashes_now e (c_sh c)); [apply H0|].
     destruct (q_mode q), (src_next e (c_sh c)); try apply H0;
       try (destruct (N.of_nat (length (n :: got)) =? q_n q); apply H0);
-      try (destruct (N.of_nat (length (n0 :: got)) =? q_n q); apply H0);
-      destruct got; apply H0.
+      try (destruct (N.of_nat (length (n0 :: got)) =? q_n q); apply H0).
   - destruct (q_mode q); first [apply Hfin|apply H0].
   - destruct (q_mode q); try apply Hfin.
     + destruct (s_y (c_sh c) =? b); [destruct (rev got)|]; apply Hfin.
